@@ -133,3 +133,34 @@ LEAN_EXPORT uint64_t mdsort_mbtowc(b_lean_obj_arg str, uint64_t off) {
 LEAN_EXPORT uint32_t mdsort_wcwidth(uint32_t wc) {
   return (uint32_t)(wcwidth((wchar_t)wc) + 1);
 }
+
+/* time_format (time.c): localtime + strftime(buf, 32, fmt) in the zone `tz` ("" = TZ unset: the system zone).
+ * `t` is the time_t offset by 2^62.  Returns #[0] for NULL (strftime returned 0 or localtime failed), else #[1, bytes...]. */
+LEAN_EXPORT lean_obj_res mdsort_timefmt(b_lean_obj_arg fmt, b_lean_obj_arg tz, uint64_t t) {
+  size_t fl = lean_sarray_size(fmt), zl = lean_sarray_size(tz);
+  char *f = malloc(fl + 1), *z = malloc(zl + 1);
+  memcpy(f, lean_sarray_cptr(fmt), fl); f[fl] = 0;
+  memcpy(z, lean_sarray_cptr(tz), zl); z[zl] = 0;
+  char *old = getenv("TZ");
+  char *save = old ? strdup(old) : NULL;
+  if (zl > 0) setenv("TZ", z, 1); else unsetenv("TZ");
+  tzset();
+  time_t tim = (time_t)((int64_t)t - (1LL << 62));
+  struct tm *tm = localtime(&tim);
+  char buf[32];
+  size_t n = tm ? strftime(buf, sizeof(buf), f, tm) : 0;
+  if (save) { setenv("TZ", save, 1); free(save); } else unsetenv("TZ");
+  tzset();
+  lean_object *arr;
+  if (n == 0) {
+    arr = lean_alloc_array(1, 1);
+    lean_array_set_core(arr, 0, lean_box_uint32(0));
+  } else {
+    arr = lean_alloc_array(n + 1, n + 1);
+    lean_array_set_core(arr, 0, lean_box_uint32(1));
+    for (size_t i = 0; i < n; i++)
+      lean_array_set_core(arr, i + 1, lean_box_uint32((uint32_t)(unsigned char)buf[i]));
+  }
+  free(f); free(z);
+  return arr;
+}
